@@ -953,6 +953,24 @@ func (m *Model) pickReturn(ev Event) {
 			// READY again every call for the key goes back to the home channel"
 			m.v("C08", "not-back-home", facts, msg, ev.Op)
 		}
+		if prop == "C01" || prop == "C02" {
+			// C07: "the replacement takes over the channel (its bound keys, active
+			// streams and position)": a routing or load violation that involves a
+			// channel whose connection was refreshed is also reported there
+			inv := map[int]bool{}
+			if placedCh >= 0 {
+				inv[placedCh] = true
+			}
+			for a := range ex.allowed {
+				inv[a] = true
+			}
+			for a := 0; a < len(m.chans); a++ {
+				if inv[a] && !m.chans[a].gone && m.refreshFact(m.chans[a]) == "|after_refresh=1" {
+					m.v("C07", "takeover-lost-channel-state", prop, "involves channel "+fmt.Sprint(a)+" whose connection was refreshed: "+msg, ev.Op)
+					break
+				}
+			}
+		}
 		if extraMethod {
 			m.v("C17", "method-mapping", facts, "extra method "+c.MethodName+": "+msg, ev.Op)
 		} else if c.Method == MNoAff && prop != "C04" {
